@@ -152,3 +152,30 @@ void harness(void)
 	V_CANARY();
 }
 #endif
+
+#if defined(UNIT_PATHLAST)
+/* mpt_path_last on a plain (non-array) path of up to LMAX bytes: the last element's length is kept in the 8-bit
+ * field path.first ("element lengths kept in path.first (8 bit)"): decided here is that the recorded length is the
+ * real one.  Split: elements up to 255 bytes must be recorded exactly; longer ones must be refused or recorded
+ * without loss (known finding: they are silently reduced modulo 256, see known_findings.json). */
+#ifndef LMAX
+# define LMAX 300
+#endif
+void harness(void)
+{
+	static char text[LMAX + 1]; IN(size_t, in_last); const size_t in_len = LMAX;
+	MPT_STRUCT(path) path = MPT_PATH_INIT; int r; size_t i;
+	/* "aaa...a.<last element of in_last bytes>": LMAX bytes, one separator at a symbolic position */
+	V_REQ(in_last < in_len);
+	for (i = 0; i < LMAX; i++) text[i] = 'a';
+	text[in_len - 1 - in_last] = '.';
+	path.base = text; path.off = 0; path.len = in_len + 1; path.sep = '.'; path.assign = 0;     /* len counts the trailing assign/separator position */
+	r = mpt_path_last(&path);
+	V_CHECK("path_last: reports the length of the last element", r == (int) in_last);
+	V_CHECK("path_last: an element of up to 255 bytes is recorded exactly", IMP(in_last <= 255, path.first == in_last && path.len == in_last + 1 && path.off == in_len - in_last));
+	V_CHECK("path_last: a longer element is refused or recorded without loss (8-bit length field)", IMP(in_last > 255, r < 0 || (path.first == 0 && path.len == in_last + 1)));
+	V_COVER("element of exactly 255 bytes", r == 255);
+	V_COVER("element longer than 255 bytes", r > 255);
+	V_CANARY();
+}
+#endif
